@@ -128,6 +128,17 @@ func child(a []string) int {
 		res.Evaluations++
 		runCase(p, c)
 	}
+	if f, ok := p.(core.Flusher); ok && to > from {
+		c := &core.Ctx{Prop: p.ID(), Tier: tier, Seed: seed, Idx: to - 1, R: core.NewRand(core.SubSeed(seed, p.ID()+"/flush", from)), Res: res}
+		func() {
+			defer func() {
+				if r := recover(); r != nil {
+					c.Inconclusive(fmt.Sprintf("harness panic in flush: %v\n%s", r, debug.Stack()))
+				}
+			}()
+			f.Flush(c)
+		}()
+	}
 	b, err := core.MarshalResult(res)
 	if err != nil {
 		fmt.Fprintln(os.Stderr, "marshal:", err)
@@ -154,6 +165,9 @@ func oneCase(id, tier string, seed int64, idx int) int {
 	c := &core.Ctx{Prop: id, Tier: tier, Seed: seed, Idx: idx, R: core.NewRand(core.SubSeed(seed, id, idx)), Res: res, Verbose: true}
 	res.Evaluations++
 	runCase(p, c)
+	if f, ok := p.(core.Flusher); ok {
+		f.Flush(c)
+	}
 	for _, s := range res.Inconclusive {
 		fmt.Println("INCONCLUSIVE:", s)
 	}
